@@ -11,7 +11,7 @@
 (*   ThmFixpoint    RtParse(RefSer(T)) = T                (T is a fixpoint of parse o serialize) *)
 (*   ThmOmit        RtParse(RtSerOmit(T, OtDefects)) = T  (optional-tag omission is invisible;   *)
 (*                  OtDefects = {}: the intended filter; = listed names: must FAIL = witness)    *)
-EXTENDS RoundTrip, TLC, Json
+EXTENDS RoundTrip, TLC, Json, IOUtils
 CONSTANTS Themes, Extra, Less, Deep, Deeper, TextLen, Export, OtDefects, CheckOmit
 
 Fr(nd, cx, kids) == [nd |-> nd, cx |-> cx, kids |-> kids]
@@ -44,6 +44,13 @@ Values == {<<>>, <<120>>, <<32>>, <<97, 32, 98>>, <<39>>, <<34>>, <<34, 39>>, <<
            <<201, 120>>, <<201, 61>>, <<233, 120>>}      \* (capital E acute + alphanumeric / '=': the entity the ascii codec error handler writes must end in ';')
 FewValues == {<<>>, <<120>>, <<97, 32, 98>>, <<34>>, <<38>>, <<233>>}
 
+\* ---- element names handed in by the harness (file named by the environment variable C07_NAMES: a JSON array of names) ----
+\* They only WIDEN the candidate alphabet of the theme "names" (every name the serializer / optional-tags filter of the tree
+\* under test special-cases, plus fixed extras); CmChildOK decides which of them the content model admits and as what
+\* (a modelled flow element, an extension element, or not at all).
+NameList == JsonDeserialize(IOEnv.C07_NAMES)
+HandedNames == {NameList[i] : i \in 1..Len(NameList)}
+
 \* ---- themes ----
 Cand(th) ==
     CASE th = "blocks" -> {E(N_div), E(N_p), EA(N_p, <<At(N_id, X)>>), E(N_a), E(N_ul), E(N_li), E(N_dialog), E(N_hr), CmText(X)}
@@ -69,6 +76,7 @@ Cand(th) ==
                             CmElemA("math", N_math, <<>>), CmElemA("math", N_mi, <<>>), CmElemA("math", N_mtext, <<>>),
                             CmElemA("math", N_annotation_xml, <<At(N_encoding, N_text_html)>>),
                             E(N_div), E(N_p), E(N_b), CmText(X), CmText(<<60>>)}
+      [] th = "names" -> {E(nm) : nm \in HandedNames}
       [] th = "text" -> DangerTexts \cup {E(N_body)}           \* (elements are free in this theme: only text counts)
       [] th = "attrs" -> {EA(N_div, <<At(N_title, v)>>) : v \in Values} \cup {EA(N_input, <<At(N_value, v)>>) : v \in Values}
                          \cup {EA(N_img, <<At(A_alt, v), At(N_src, w)>>) : v, w \in FewValues}
@@ -92,6 +100,10 @@ Starts(th) ==
                          Push(Push(BodyOpen(HeadT), E(N_select)), E(N_option)), Push(Push(HtmlOpen, E(N_head)), E(N_title)),
                          BodyOpen(HeadT)}
       [] th = "doc" -> {DocStart(<<>>)}
+      [] th = "names" -> {Leaf(BodyOpen(HeadT), Filled(E(N_p), <<CmText(X)>>)),          \* <p>x</p> then the name
+                          Leaf(Push(BodyOpen(HeadT), E(N_p)), CmText(X)),                 \* the name inside <p>x
+                          BodyOpen(Head0),                                                \* the name first in body, empty head
+                          Leaf(Push(BodyOpen(HeadT), E(N_div)), Filled(E(N_p), <<CmText(X)>>))}   \* <div><p>x</p> then the name
       [] th = "attrs" -> {BodyOpen(HeadT), BodyOpen(Head0)}
       [] OTHER -> {BodyOpen(HeadT)}
 Bound(th) ==
@@ -101,7 +113,8 @@ Bound(th) ==
        [] th = "doc" -> 6
        [] th = "text" -> 1
        [] th = "attrs" -> 1
-       [] OTHER -> 3) + (IF th \in {"text", "attrs"} THEN 0 ELSE Extra - Less + (IF th \in Deep THEN 1 ELSE 0) + (IF th \in Deeper THEN 1 ELSE 0))
+       [] th = "names" -> 1
+       [] OTHER -> 3) + (IF th \in {"text", "attrs"} THEN 0 ELSE (IF th = "names" THEN 0 ELSE Extra - Less) + (IF th \in Deep THEN 1 ELSE 0) + (IF th \in Deeper THEN 1 ELSE 0))
 
 VARIABLES theme, stack, n
 vars == <<theme, stack, n>>
